@@ -87,6 +87,10 @@ def run(ctx) -> None:
             c06._census(sub_ctx, u)
     ctx.rule("R02.10", "the scope around the source never suppresses: an exception raised while aggregating reaches the caller (R06.3, shared)")
     c06._aexit_falsy(Relabel(ctx, "R02.10"))
+    from . import c07
+    ctx.rule("R02.11", "nlargest / nsmallest take their first n items through a borrowed view that can never close the source: what "
+                       "the internal borrow hands out is a new generator that only iterates (R07.4, shared)")
+    c07.r07_4(Relabel(ctx, "R02.11"))
     from . import tooltables
     tooltables.aggregate_tables(ctx, "R02.8")
     ctx.floor("agg_cells_decided", 600)
